@@ -13,6 +13,8 @@ VTScenarios == {<<"V.main", "V.worker(valid)", "V.worker(valid)">>,
                 <<"V.main", "V.worker(round moved on)", "V.worker(round moved on)">>}
 MCScenarios == UPairs(RoundOps) \cup UPairs(BlockOps) \cup CrossScenarios \cup VTScenarios
 NoGroups == {}
+\* the groups repaired in /repo so far (GetNotarizedBlocks: RLock + copy; ValidateTransactions: atomic flags)
+CodeFixed == {"getnb", "vt"}
 
 \* static: the operations share a location that one of them writes
 Accs(o) == {s \in {Steps(o)[i] : i \in 1..Len(Steps(o))} : s.k = "acc"}
